@@ -28,6 +28,13 @@ enum Op {
     SetPos(usize),
     StreamPos,
     Flush,
+    /// pseudo-operation, only as the first element of a history: construct with_capacity(c)
+    Init(usize),
+    /// flip a byte in place through as_bytes_mut (if it exists)
+    Poke(usize),
+    ReadExact(usize),
+    /// continue on a clone of the cursor
+    CloneSelf,
 }
 
 fn alphabet() -> Vec<Op> {
@@ -40,6 +47,7 @@ fn alphabet() -> Vec<Op> {
         Op::SeekCur(-2), Op::SeekCur(3), Op::SeekCur(i64::MAX),
         Op::SetPos(0), Op::SetPos(20), Op::SetPos(70),
         Op::StreamPos, Op::Flush,
+        Op::Poke(0), Op::Poke(2), Op::ReadExact(2), Op::CloneSelf,
     ]
 }
 
@@ -54,12 +62,12 @@ struct St {
 }
 impl Hash for St {
     fn hash<H: Hasher>(&self, h: &mut H) {
-        self.bytes.hash(h); self.pos.hash(h); self.len.hash(h); self.units.hash(h); self.ops.len().hash(h); self.diverged.hash(h);
+        self.bytes.hash(h); self.pos.hash(h); self.len.hash(h); self.units.hash(h); self.ops.len().hash(h); self.ops.first().hash(h); self.diverged.hash(h);
     }
 }
 impl PartialEq for St {
     fn eq(&self, o: &Self) -> bool {
-        self.bytes == o.bytes && self.pos == o.pos && self.len == o.len && self.units == o.units && self.ops.len() == o.ops.len() && self.diverged == o.diverged
+        self.bytes == o.bytes && self.pos == o.pos && self.len == o.len && self.units == o.units && self.ops.len() == o.ops.len() && self.ops.first() == o.ops.first() && self.diverged == o.diverged
     }
 }
 impl Eq for St {}
@@ -112,6 +120,26 @@ fn apply<A: Alignment>(ac: &mut AlignedCursor<A>, sc: &mut Cursor<Vec<u8>>, op: 
                 let s = sc.flush();
                 if kind(&a) != kind(&s) { return Some(format!("flush returned {} vs std {}", kind(&a), kind(&s))); }
             }
+            Op::Init(_) => {}
+            Op::Poke(i) => {
+                let n = sc.get_ref().len();
+                let m = ac.as_bytes_mut();
+                if m.len() != n { return Some(format!("as_bytes_mut has {} bytes vs std {}", m.len(), n)); }
+                if i < n { m[i] ^= 0xFF; sc.get_mut()[i] ^= 0xFF; }
+            }
+            Op::ReadExact(n) => {
+                // Only where it succeeds: after a failing read_exact the position is unspecified by
+                // the Read contract (std's Cursor happens to move to the end, the provided method
+                // used by AlignedCursor leaves it), so a failing call is outside the alphabet.
+                if sc.position().saturating_add(n as u64) > sc.get_ref().len() as u64 { return None; }
+                let mut ba = vec![0xEEu8; n];
+                let mut bs = vec![0xEEu8; n];
+                let a = ac.read_exact(&mut ba);
+                let s = sc.read_exact(&mut bs);
+                // on failure the buffer contents are unspecified; the position is compared by observe()
+                if kind(&a) != kind(&s) || (a.is_ok() && ba != bs) { return Some(format!("read_exact({}) returned {} vs std {}", n, kind(&a), kind(&s))); }
+            }
+            Op::CloneSelf => { let c = ac.clone(); *ac = c; }
         }
         None
     }));
@@ -138,8 +166,9 @@ fn observe<A: Alignment>(ac: &mut AlignedCursor<A>, sc: &Cursor<Vec<u8>>) -> Res
 }
 
 fn replay<A: Alignment>(ops: &[Op]) -> (AlignedCursor<A>, Cursor<Vec<u8>>, Option<String>) {
-    let mut ac = AlignedCursor::<A>::new();
+    let mut ac = match ops.first() { Some(Op::Init(c)) => AlignedCursor::<A>::with_capacity(*c), _ => AlignedCursor::<A>::new() };
     let mut sc = Cursor::new(Vec::new());
+    if let Err(d) = observe(&mut ac, &sc) { return (ac, sc, Some(format!("fresh cursor: {}", d))); }
     for (i, op) in ops.iter().enumerate() {
         if let Some(d) = apply(&mut ac, &mut sc, *op, i) { return (ac, sc, Some(d)); }
     }
@@ -151,9 +180,11 @@ struct CursorModel<A> { depth: usize, known: Vec<String>, _p: PhantomData<A> }
 impl<A: Alignment + Send + Sync + 'static> Model for CursorModel<A> {
     type State = St;
     type Action = Op;
-    fn init_states(&self) -> Vec<St> { vec![St { ops: vec![], bytes: vec![], pos: 0, len: 0, units: 0, diverged: None }] }
+    fn init_states(&self) -> Vec<St> {
+        [0usize, 5, 16, 40].iter().map(|c| St { ops: vec![Op::Init(*c)], bytes: vec![], pos: 0, len: 0, units: 0, diverged: None }).collect()
+    }
     fn actions(&self, s: &St, out: &mut Vec<Op>) {
-        if s.diverged.is_some() || s.ops.len() >= self.depth { return; }
+        if s.diverged.is_some() || s.ops.len() > self.depth { return; }
         out.extend(alphabet());
     }
     fn next_state(&self, s: &St, a: Op) -> Option<St> {
